@@ -68,7 +68,7 @@ def check_case(ctx, case):
     import smoothmath.expression as E
     rng = random.Random(case.get("pseed", 0))
     s = S.from_json(case["spec"])
-    if not C.varfree_in_scope(s):
+    if not C.tree_in_scope(s):
         ctx.count("inputs_out_of_scope")
         return
     V = sorted(S.variables(s))
